@@ -1,5 +1,5 @@
 """Registry: property id -> check function(prop, tier, verdict) -> (level, coverage, assumptions)."""
-import eng_sess
+import eng_sess, eng_hub
 
 SESS_ASSUME = [
     'the in-memory connection of the harness behaves like a reliable byte stream (delivered bytes stay readable after the peer closes; writes fail after a close)',
@@ -11,8 +11,18 @@ def c02(prop, tier, verdict):
     cov, _ = eng_sess.run(prop, tier, verdict)
     return 'model_checking', cov, SESS_ASSUME
 
+def c07(prop, tier, verdict):
+    cov, _ = eng_sess.run(prop, tier, verdict)
+    hcov, _ = eng_hub.run(prop, tier, verdict)
+    cov.update(hcov)
+    cov['traces_validated_against_impl'] += hcov['hub_traces_validated']
+    cov['evaluations'] += hcov['hub_scenarios']
+    cov['distinct_nontrivial'] += hcov['hub_distinct_nontrivial']
+    cov['samples'].append({'hub_history': hcov['hub_sample']})
+    return 'model_checking', cov, SESS_ASSUME + ['session index: 3 sessions, 2 user ids, histories of at most 7 operations, one operation at a time (quiescent probes)']
+
 CHECKS = {
     'C02': c02,
     'C08': c02,
-    'C07': c02,
+    'C07': c07,
 }
